@@ -503,8 +503,10 @@ pub fn corrupt(data: &mut Vec<u8>, rng: &mut Rng, st: &mut Vec<String>) {
 // ------------------------------------------------------------------------------------------------
 // Deep / wide adversarial peers
 
+pub const N_DEEP_KINDS: usize = 11;
+
 pub fn deep_doc(kind: usize, depth: usize) -> String {
-    match kind % 9 {
+    match kind % N_DEEP_KINDS {
         0 => format!("{}1{}", "[".repeat(depth), "]".repeat(depth)),
         1 => format!("{}1{}", "{a: ".repeat(depth), "}".repeat(depth)),
         2 => {
@@ -539,9 +541,30 @@ pub fn deep_doc(kind: usize, depth: usize) -> String {
             // m: {m: {m: ...}} for the recursive struct
             format!("{}{{v: 1}}{}", "{m: ".repeat(depth), "}".repeat(depth))
         }
-        _ => {
+        8 => {
             // tagged chain
             format!("{}1{}", "!t [".repeat(depth), "]".repeat(depth))
+        }
+        9 => {
+            // anchored containers nested inside each other: ids are handed out at the start of a
+            // container and stored at its end
+            let mut s = String::new();
+            for i in 0..depth {
+                s.push_str(&format!("&n{i} ["));
+            }
+            s.push('1');
+            s.push_str(&"]".repeat(depth));
+            s
+        }
+        _ => {
+            // a failing first document whose skipped remainder defines many anchors, then a document
+            // that defines and uses one more
+            let mut s = String::from("- [not, an, int]\n");
+            for i in 0..depth.min(4000) {
+                s.push_str(&format!("- &s{i} {i}\n"));
+            }
+            s.push_str("---\n- &late 5\n- *late\n---\n- &later [6]\n- *later\n");
+            s
         }
     }
 }
@@ -555,11 +578,11 @@ pub fn wide_doc(kind: usize, n: usize) -> String {
     }
 }
 
-const DEPTHS: [usize; 14] = [1, 64, 500, 1000, 1500, 1990, 1999, 2000, 2001, 2010, 3000, 10_000, 40_000, 100_000];
+const DEPTHS: [usize; 17] = [1, 9, 12, 20, 64, 500, 1000, 1500, 1990, 1999, 2000, 2001, 2010, 3000, 10_000, 40_000, 100_000];
 
 pub fn n_probes() -> u64 {
     // kind x depth x target
-    (9 * DEPTHS.len() * 4) as u64
+    (N_DEEP_KINDS * DEPTHS.len() * 5) as u64
 }
 
 pub fn total(tier: Tier) -> u64 {
@@ -587,9 +610,10 @@ pub fn gen_case(tier: Tier, seed: u64, idx: u64) -> Case {
     if idx < n_probes() {
         // deep-nesting peers, default budget, one read
         let i = idx as usize;
-        let kind = i % 9;
-        let depth = DEPTHS[(i / 9) % DEPTHS.len()];
-        let target = [T01::Fam(Target::Json), T01::DeepSeq, T01::DeepEnum, T01::DeepMap][(i / (9 * DEPTHS.len())) % 4];
+        let kind = i % N_DEEP_KINDS;
+        let depth = DEPTHS[(i / N_DEEP_KINDS) % DEPTHS.len()];
+        let target = [T01::Fam(Target::Json), T01::DeepSeq, T01::DeepEnum, T01::DeepMap, T01::Fam(Target::VecI)]
+            [(i / (N_DEEP_KINDS * DEPTHS.len())) % 5];
         return Case::C01(TotalCase {
             bytes: Doc::from_str(&deep_doc(kind, depth)),
             target,
@@ -631,7 +655,7 @@ pub fn gen_case(tier: Tier, seed: u64, idx: u64) -> Case {
         }
         8 => {
             origin.push("deep".to_string());
-            deep_doc(rng.below(9), *rng.pick(&[3, 17, 200, 1999, 2001]))
+            deep_doc(rng.below(N_DEEP_KINDS), *rng.pick(&[3, 10, 17, 200, 1999, 2001]))
         }
         9 => {
             origin.push("wide".to_string());
